@@ -135,4 +135,44 @@ PROPS = {
         "assumptions": [],
         "design_ref": "DESIGN.md §3.5, §3.16, §4 C05",
     },
+    "C10": {
+        "rules": ["CFGMOD", "EQVGATE"],
+        "thorough": [],
+        "technique": "static analysis: must-call + def-use threading of the changed-field set from the check to the recorded derivation; dominance of the equivalence gate over the callee swap",
+        "level_text": "Structural clauses: every primitive that inserts or deletes a configuration write or swaps a callee obtains the possibly-changed field set from "
+        "Check_DeleteConfigWrite/Check_ExtendEqv and returns it; every API entry threads that set into Procedure(..., _mod_config=...) and Procedure.__init__ hands it to "
+        "derive_proc; call_eqv reaches its edit only past `if not is_eqv: raise` on the result of get_strictest_eqv_proc(current callee, new) and passes the differing keys to "
+        "Check_ExtendEqv. Does not decide the global dataflow (globenv) or the SMT visibility conditions inside the two checks.",
+        "level_note": "Trusted: names of the two configuration checks; discovery of configuration-touching primitives by construction of LoopIR.WriteConfig / replacement of Call.f / DoDeleteConfig.",
+        "explanation": "CFGMOD (a) primitives, (b) API call sites, (c) Procedure.__init__; EQVGATE via must-facts on DoCallSwap.",
+        "assumptions": [],
+        "design_ref": "DESIGN.md §3.13, §4 C10",
+    },
+    "C11": {
+        "rules": ["UFOWN", "EQVSHAPE", "NOPROV"],
+        "thorough": [],
+        "technique": "static analysis: ownership (who-may-touch) of the equivalence store, polarity/shape patterns of the per-field union-find bookkeeping, provenance rule over every Procedure construction",
+        "level_text": "Structural clauses: only core/proc_eqv.py touches the union-find stores and only Procedure.__init__/unsafe_assert_eq record steps; the bookkeeping has the shape the "
+        "per-field closure needs (a step is unioned into field K's relation iff K is not in its disturbed set; strict only when the set is empty; a newly seen field starts from a copy of the "
+        "universal relation taken before the step is applied; every procedure is a node of every relation; queries report exactly the non-connecting fields; union/check act on roots); "
+        "signature-changing operations (partial_eval, transpose, add_assertion, extracted sub-procedures) record no provenance and every other construction does, with the operation's own "
+        "procedure as origin. Does not prove the closure algebra over all histories (needs model checking/proof).",
+        "level_note": "EQVSHAPE uses metavariable AST patterns (sa/pat.py): robust to renaming locals, not to re-architecting the bookkeeping.",
+        "explanation": "UFOWN enumerates every reference to _UF_* and every call of the four writer functions; EQVSHAPE 13 shape obligations; NOPROV classifies all 64 Procedure(...) sites.",
+        "assumptions": [],
+        "design_ref": "DESIGN.md §3.13, §4 C11",
+    },
+    "C19": {
+        "rules": ["ANNOTONLY", "PREDSONLY", "PEVAL", "TRAV@C19", "TRAVBASE", "NOPROV", "EXH"],
+        "thorough": [],
+        "technique": "static analysis: written-field sets of the annotation primitives, constructor-argument identity for add_assertion, substitution/traversal completeness for partial_eval",
+        "level_text": "Structural clauses: set_precision/set_memory/set_window, parallelize_loop, rename and make_instr write only annotation fields (type/mem/is_window/src_type/as_tensor, loop_mode, "
+        "name, instr); set_precision retypes reads and writes; add_assertion copies every field and only extends preds with a fragment parsed in the procedure's scope; partial_eval "
+        "validates the bindings, substitutes literals for reads of bound index/bool arguments through the traversal-complete template rewriter and drops exactly the bound arguments; "
+        "signature-changing utilities cut provenance. Does not decide the value-level relation between p and its variant.",
+        "level_note": "Trusted: ADT text; metavariable patterns for DoPartialEval.",
+        "explanation": "ANNOTONLY computes string literals reaching _child_node/_child_block of an edit chain, update(...) keywords and returned dict keys; PREDSONLY; PEVAL; TRAV(DoPartialEval)+TRAVBASE; NOPROV; EXH(LoopIR_Rewrite).",
+        "assumptions": [],
+        "design_ref": "DESIGN.md §3.19, §4 C19",
+    },
 }
